@@ -389,14 +389,78 @@ def chunks(it, n):
         yield buf
 
 
+_COV = {}
+
+
+def _sampling(specs, keep):
+    """pass specs through, remembering an evenly thinned sample (for the coverage pass)"""
+    step, n = 1, 0
+    for sp in specs:
+        if n % step == 0:
+            keep.append(sp)
+            if len(keep) > 600:
+                del keep[::2]
+                step *= 2
+        n += 1
+        yield sp
+
+
 def explore(modname, specs, bindirs, chunk=100, opts=None, nproc=None):
     """Run all specs of module `modname` in parallel; returns merged Result."""
     total = Result()
     nproc = nproc or NPROC
+    first = not _COV and 'cov' in bindirs and not (opts or {}).get('variant')
+    sample = []
+    if first:
+        _COV.update({'modname': modname, 'bindirs': bindirs, 'opts': dict(opts or {}), 'sample': sample, 'chunk': chunk})
+        specs = _sampling(specs, sample)
     with multiprocessing.Pool(nproc, initializer=_worker_init, initargs=(modname, bindirs, opts or {})) as pool:
         for r in pool.imap_unordered(_worker_chunk, chunks(specs, chunk)):
             total.merge(r)
     return total
+
+
+def coverage_pass(prop):
+    """Re-run a sample of the workload on the gcov build; -> {anchored function: percent of lines executed}"""
+    if not _COV or not _COV['sample']:
+        return None
+    bindirs = _COV['bindirs']
+    opts = dict(_COV['opts'], variant='cov')
+    sample = _COV['sample'][:400]
+    with multiprocessing.Pool(min(NPROC, 8), initializer=_worker_init, initargs=(_COV['modname'], bindirs, opts)) as pool:
+        for _ in pool.imap_unordered(_worker_chunk, chunks(sample, max(1, min(_COV['chunk'], len(sample) // 8 or 1)))):
+            pass
+    bd = bindirs['cov']
+    p = subprocess.run('cd %s && gcov -f -o . src/confuse.c src/lexer.c 2>/dev/null' % bd, shell=True, stdout=subprocess.PIPE, text=True)
+    funcs = {}
+    cur = None
+    for line in p.stdout.split('\n'):
+        m = re.match(r"Function '(\w+)'", line)
+        if m:
+            cur = m.group(1)
+            continue
+        m = re.match(r'Lines executed:([0-9.]+)% of (\d+)', line)
+        if m and cur:
+            funcs[cur] = (float(m.group(1)), int(m.group(2)))
+            cur = None
+    # anchored functions of this property
+    names = set()
+    try:
+        with open(os.path.join(VERIF, 'properties.jsonl')) as f:
+            for l in f:
+                pj = json.loads(l)
+                if pj['id'] == prop:
+                    txt = json.dumps(pj['anchors'])
+                    names = set(re.findall(r'\b(cfg_\w+|parse_title|call_function|qputc|qput|qend|qstr|trim_whitespace)\b', txt))
+    except OSError:
+        pass
+    out = {}
+    for n in sorted(names):
+        if n in funcs:
+            out[n] = '%.0f%% of %d lines' % funcs[n]
+    if 'cfg_yylex' in funcs:
+        out['cfg_yylex (all lexer.l actions)'] = '%.0f%% of %d lines' % funcs['cfg_yylex']
+    return {'sample_cases': len(sample), 'anchored_functions': out}
 
 
 # ---- known findings, reporting
@@ -453,6 +517,13 @@ def finish(prop, tier, seed, level, res, rule, t0, floor=1, assumptions=None, ex
             cov[k] = v
     if more:
         cov.update(more)
+    if not os.environ.get('VERIF_NO_EVIDENCE') and not os.environ.get('VERIF_NO_COV'):
+        try:
+            cp = coverage_pass(prop)
+            if cp:
+                cov['line_coverage_of_anchored_functions'] = cp
+        except Exception as e:      # coverage is evidence only; never let it change a verdict
+            cov['line_coverage_of_anchored_functions'] = {'error': str(e)[:200]}
     ev = {
         'property_id': prop, 'tier': tier, 'seed': seed, 'level': level, 'coverage': cov,
         'assumptions': assumptions or [], 'wall_s': round(time.time() - t0, 2),
